@@ -87,21 +87,19 @@ class Recorder(object):
             return ro, rw
         self._patch(U.Tahoe2ServerSelector, "_create_trackers", create_trackers)
 
-        o_ask = U.ServerTracker.ask_about_existing_shares
+        o_he = U.Tahoe2ServerSelector._handle_existing_response
 
-        def ask(tr):
-            kind = "ro" if any(tr is t for t in rec.tracker_lists[0]) else "rw"
-            d = o_ask(tr)
+        def he(sel, res, tracker):
+            rec.existing.append((rec.ix(tracker.get_serverid()), "ro", None if isinstance(res, Failure) else sorted(res.keys())))
+            return o_he(sel, res, tracker)
+        self._patch(U.Tahoe2ServerSelector, "_handle_existing_response", he)
 
-            def got(res):
-                if isinstance(res, Failure):
-                    rec.existing.append((rec.ix(tr.get_serverid()), kind, None))
-                else:
-                    rec.existing.append((rec.ix(tr.get_serverid()), kind, sorted(res.keys())))
-                return res
-            d.addBoth(got)
-            return d
-        self._patch(U.ServerTracker, "ask_about_existing_shares", ask)
+        o_hw = U.Tahoe2ServerSelector._handle_existing_write_response
+
+        def hw(sel, res, tracker, shares_to_ask):
+            rec.existing.append((rec.ix(tracker.get_serverid()), "rw", None if isinstance(res, Failure) else sorted(res.keys())))
+            return o_hw(sel, res, tracker, shares_to_ask)
+        self._patch(U.Tahoe2ServerSelector, "_handle_existing_write_response", hw)
 
         o_plan = U.PeerSelector.get_share_placements
 
@@ -123,19 +121,19 @@ class Recorder(object):
         o_query = U.ServerTracker.query
 
         def query(tr, sharenums):
-            rnd = rec.rounds[-1]
-            rnd["queries"].append((rec.ix(tr.get_serverid()), sorted(sharenums)))
-            d = o_query(tr, sharenums)
-
-            def got(res):
-                if isinstance(res, Failure):
-                    rnd["resps"].append((rec.ix(tr.get_serverid()), ("err",)))
-                else:
-                    rnd["resps"].append((rec.ix(tr.get_serverid()), ("ok", sorted(res[0]), sorted(res[1]))))
-                return res
-            d.addBoth(got)
-            return d
+            rec.rounds[-1]["queries"].append((rec.ix(tr.get_serverid()), sorted(sharenums)))
+            return o_query(tr, sharenums)
         self._patch(U.ServerTracker, "query", query)
+
+        o_ba = U.Tahoe2ServerSelector._buckets_allocated
+
+        def ba(sel, res, tracker, shares_to_ask):
+            if isinstance(res, Failure):
+                rec.rounds[-1]["resps"].append((rec.ix(tracker.get_serverid()), ("err",)))
+            else:
+                rec.rounds[-1]["resps"].append((rec.ix(tracker.get_serverid()), ("ok", sorted(res[0]), sorted(res[1]))))
+            return o_ba(sel, res, tracker, shares_to_ask)
+        self._patch(U.Tahoe2ServerSelector, "_buckets_allocated", ba)
 
         o_abort = U.ServerTracker.abort_some_buckets
 
@@ -148,6 +146,7 @@ class Recorder(object):
 
         def failed(sel, msg):
             rec.sel_verdict = "unhappy"
+            rec.final = rec.selector_state()
             return o_failed(sel, msg)
         self._patch(U.Tahoe2ServerSelector, "_failed", failed)
 
@@ -155,6 +154,7 @@ class Recorder(object):
 
         def set_shareholders(up, upload_trackers, already, encoder):
             rec.sel_verdict = "ok"
+            rec.final = rec.selector_state()
             rec.sel_result = {"use": dict((rec.ix(t.get_serverid()), sorted(t.buckets.keys())) for t in upload_trackers),
                               "already": dict((sh, sorted(rec.ix(p) for p in ps)) for sh, ps in already.items())}
             try:
@@ -338,6 +338,18 @@ def kuhn(edges):
     return n
 
 
+def later(fn):
+    """Start `fn` one reactor turn after Grid.run has begun: Grid.run treats timers that exist when it starts as
+    housekeeping and never fires them early, and the selector creates its 15 s query timers synchronously."""
+    from foolscap.eventual import fireEventually
+
+    def start():
+        d = fireEventually()
+        d.addCallback(lambda _: fn())
+        return d
+    return start
+
+
 def run_scenario(sc, keep_grid=False):
     """Execute one scenario on a fresh grid.  Returns a dict of observations (pure data)."""
     from core import grid as G
@@ -355,7 +367,7 @@ def run_scenario(sc, keep_grid=False):
             for s in others:
                 g.break_server(s)
             g.set_encoding(happy=1)
-            out0 = g.run(g.upload_results(data, convergence=CONVERGENCE), outcome=True)
+            out0 = g.run(later(lambda: g.upload_results(data, convergence=CONVERGENCE)), outcome=True)
             g.run(defer.Deferred(), outcome=True)
             for s in others:
                 g.unbreak_server(s)
@@ -375,7 +387,7 @@ def run_scenario(sc, keep_grid=False):
         g.set_faults(sc.get("faults", []))
         n0 = len(g.sched.trace)
         with Recorder(g, batch=sc.get("batch")) as rec:
-            out = g.run(g.upload_results(data, convergence=CONVERGENCE), outcome=True)
+            out = g.run(later(lambda: g.upload_results(data, convergence=CONVERGENCE)), outcome=True)
             drained = g.run(defer.Deferred(), outcome=True)
         obs["status"] = out.status if out.status != "error" else out.error
         obs["message"] = (out.failure.getErrorMessage()[:300] if out.failure is not None else None)
@@ -393,7 +405,7 @@ def run_scenario(sc, keep_grid=False):
             rec.enc["final_servermap"] = dict((sh, sorted(rec.ix(p) for p in ps)) for sh, ps in rec.encoder.servermap.items())
             rec.enc["final_landlords"] = sorted(rec.encoder.landlords.keys())
         obs["rec"] = {"initial": rec.initial, "existing": rec.existing, "rounds": rec.rounds, "aborts": rec.aborts, "enc": rec.enc,
-                      "sel_verdict": rec.sel_verdict, "sel_result": getattr(rec, "sel_result", None), "final": rec.selector_state()}
+                      "sel_verdict": rec.sel_verdict, "sel_result": getattr(rec, "sel_result", None), "final": getattr(rec, "final", None)}
         if out.status == "ok":
             ur = out.value
             obs["sharemap"] = sorted((g.server_index(srv.get_serverid()), sh) for sh, srvs in ur.get_sharemap().items() for srv in srvs)
@@ -406,7 +418,7 @@ def run_scenario(sc, keep_grid=False):
                 for sh in g.find_shares(si):
                     if (sh.server, sh.shnum) not in keep:
                         g.delete_share(sh)
-                rd = g.run(g.download(ref["cap"]), outcome=True)
+                rd = g.run(later(lambda: g.download(ref["cap"])), outcome=True)
                 obs["download"] = {"status": rd.status if rd.status != "error" else rd.error, "same": rd.status == "ok" and rd.value == data,
                                    "distinct": len(set(sh for _, sh in keep))}
         obs["logged_errors"] = len(g.logged_errors)
